@@ -575,16 +575,19 @@ fn head_rows(c: &Clause, db: &Db) -> Result<BTreeSet<KRow>, RefError> {
         }
         return Ok(out);
     }
+    // (thread-local switch WILDCARDS_AS_VARS: the alternative reading, used only to recognise
+    // the signature of a known finding, counts named variables only)
     // Aggregates range over distinct valuations of ALL body variables; every `_` in a positive
     // atom is its own anonymous variable (the engine and standard Datalog read it that way:
     // c(G, count<V>) <- s(G, V, _) counts distinct (G, V, _) bindings).
     let named = {
         let mut c2 = c.clone();
         let mut k = 200u8;
+        let as_vars = WILDCARDS_AS_VARS.with(|w| w.get());
         for l in &mut c2.body {
             if let Lit::Pos(a) = l {
                 for t in &mut a.args {
-                    if matches!(t, T::W) {
+                    if as_vars && matches!(t, T::W) {
                         *t = T::V(k);
                         k += 1;
                     }
@@ -765,4 +768,17 @@ fn head_rows_with_depth(c: &Clause, db: &Db, depth: &BTreeMap<(String, KRow), us
 pub fn answer(p: &Program, edb: &Edb) -> Result<BTreeSet<KRow>, RefError> {
     let m = eval(&p.clauses, edb)?;
     Ok(m.db.get(&p.query().head).cloned().unwrap_or_default())
+}
+
+thread_local! {
+    /// true (default): each `_` in an aggregate body is an anonymous variable and part of the valuation
+    pub static WILDCARDS_AS_VARS: std::cell::Cell<bool> = const { std::cell::Cell::new(true) };
+}
+
+/// Reference answer under the alternative reading (aggregates count named variables only).
+pub fn answer_named_only(p: &Program, edb: &Edb) -> Result<BTreeSet<KRow>, RefError> {
+    WILDCARDS_AS_VARS.with(|w| w.set(false));
+    let r = answer(p, edb);
+    WILDCARDS_AS_VARS.with(|w| w.set(true));
+    r
 }
